@@ -192,7 +192,7 @@ def run(ctx: Ctx) -> RuleResult:
             tparam = ft.positional_names()[0]
             ok = any(isinstance(x, ast.Raise) and isinstance(x.exc, ast.Call) and norm(x.exc.func) == 'UnexpectedToken' and x.exc.args
                      and norm(x.exc.args[0]) == tparam for x in h.body) and \
-                has_pat([y for x in n.body for y in ast.walk(x)], '$st[$$s][$t.type]', {'t': tparam})
+                has_pat([y for x in n.body for y in ast.walk(x)], '$$st[$$s][$t.type]', {'t': tparam})
     res.ob('%s %s' % (ft.loc(), ft.qual), 'a token with no action in the current state raises UnexpectedToken(token, ...) before any shift', ok)
     if not ok:
         res.finding(ft, ft.node, 'the missing-action case of the LALR driver no longer raises UnexpectedToken for the offending token', construct='lalr-unexpected')
